@@ -204,6 +204,11 @@ def Membrane.addSig (m : Membrane) (s : Sig) : Membrane := { m with sigs := m.si
 
 def Membrane.clearAudit (m : Membrane) : Membrane := { m with audit := [] }
 
+/-- the PUBLIC list `m.signatures` edited directly — `m.signatures = l`, and with `l` computed from the current list
+    also `m.signatures.append(x)` / `.insert(0, x)` / `.pop()` / `del m.signatures[0]` / `.clear()` /
+    `m.signatures[i] = x` (not through `add_signature`) -/
+def Membrane.setSigs (m : Membrane) (l : List Sig) : Membrane := { m with sigs := l }
+
 /-- `m.rate_limit = r` -/
 def Membrane.setRate (m : Membrane) (r : Option Nat) : Membrane := { m with rateLimit := r }
 
@@ -227,6 +232,7 @@ inductive MOp where
   | setRate (r : Option Nat)
   | setAdaptive (b : Bool)
   | setHook (h : Option Hook)
+  | setSigs (l : List Sig)
 
 structure MSt where
   m : Membrane
@@ -251,6 +257,7 @@ def mstep (env : Env) (st : MSt) : MOp → MSt × Option MEv
   | .setRate r => (⟨st.m.setRate r, st.now⟩, none)
   | .setAdaptive b => (⟨st.m.setAdaptive b, st.now⟩, none)
   | .setHook h => (⟨st.m.setHook h, st.now⟩, none)
+  | .setSigs l => (⟨st.m.setSigs l, st.now⟩, none)
 
 /-- run a history: final state and the filter events in order -/
 def mrun (env : Env) : MSt → List MOp → MSt × List MEv
